@@ -51,3 +51,47 @@ Definition bcase_ok (r : raw_oracles) (creds : list cred) (b : bcase) : bool :=
   end.
 Definition bmismatches (r : raw_oracles) (creds : list cred) (cs : list bcase) : list int :=
   fold_right (fun b acc => if bcase_ok r creds b then acc else b_id b :: acc) [] cs.
+
+(* ---- VerifyProof: selection, GetCoreClaim, binding check, dispatch ----
+   A proof object is its type, its claim (None = GetCoreClaim fails) and whether
+   the proof-type specific material was produced honestly for that claim (the
+   harness knows how it built the bundle); the proof-type specific verifiers of
+   the model are the functions that answer exactly that. *)
+Inductive pobs := PAccept | PNotFound | PNotSupported | PReject | PPanic.
+
+Record praw := { pr_type : string; pr_claim : option (list limbs); pr_rest_ok : bool }.
+Definition mkp (ty : string) (cl : option (list limbs)) (ok : bool) : praw :=
+  {| pr_type := ty; pr_claim := cl; pr_rest_ok := ok |}.
+
+Record vcase := { vc_id : int; vc_cred : int; vc_proofs : list praw; vc_req : string; vc_obs : pobs }.
+Definition mkv (id cr : int) (ps : list praw) (req : string) (ob : pobs) : vcase :=
+  {| vc_id := id; vc_cred := cr; vc_proofs := ps; vc_req := req; vc_obs := ob |}.
+
+Definition to_vproof (p : praw) : vproof bool :=
+  {| vp_type := pr_type p;
+     vp_claim := match pr_claim p with
+                 | None => Err "hex"
+                 | Some l => match claim_of_limbs l with Some c => Ok c | None => Panic "bad-case" end
+                 end;
+     vp_body := pr_rest_ok p |}.
+Definition step_of (ok : bool) (_ : claim) : res unit := if ok then Ok tt else Err "proof-invalid".
+
+Definition pobs_agree (r : res unit) (o : pobs) : bool :=
+  match r, o with
+  | Ok _, PAccept => true
+  | Err e, PNotFound => String.eqb e e_proof_not_found
+  | Err e, PNotSupported => String.eqb e e_proof_not_supported
+  | Err e, PReject => negb (String.eqb e e_proof_not_found) && negb (String.eqb e e_proof_not_supported)
+  | _, _ => false
+  end.
+
+Definition vcase_ok (r : raw_oracles) (creds : list cred) (v : vcase) : bool :=
+  match nth_error creds (nat_of_int (vc_cred v)) with
+  | None => false
+  | Some cr =>
+      oracles_cover r cr &&
+      pobs_agree (verify_proof bool step_of step_of (mk_oracles r) cr (map to_vproof (vc_proofs v)) (vc_req v))
+                 (vc_obs v)
+  end.
+Definition vmismatches (r : raw_oracles) (creds : list cred) (cs : list vcase) : list int :=
+  fold_right (fun v acc => if vcase_ok r creds v then acc else vc_id v :: acc) [] cs.
